@@ -603,6 +603,9 @@ SEEDED_MORE = [
     ("C17", "C17Gen", "src/enc/brotli_bit_stream.rs", "                    as i32\n                    != 0i32\n                {\n                    break 'break5;", "                    as i32\n                    > 1i32\n                {\n                    break 'break5;", False),
     ("C17", "C17Gen", "src/enc/brotli_bit_stream.rs", "            skip_some = 3;\n        }\n    }\n    BrotliWriteBits(2, skip_some, storage_ix, storage);", "            skip_some = 2;\n        }\n    }\n    BrotliWriteBits(2, skip_some, storage_ix, storage);", False),
     ("C17", "C17Gen", "src/enc/brotli_bit_stream.rs", "    for i in skip_some..codes_to_store {\n        let l = code_length_bitdepth[kStorageOrder[i as usize] as usize] as usize;", "    for idx in skip_some..codes_to_store {\n        let l = code_length_bitdepth[kStorageOrder[idx as usize] as usize] as usize;", True),
+    ("C17", "C17Gen", "src/enc/entropy_encode.rs", "        code = (code + bl_count[i - 1] as i32) << 1;", "        code = (code + bl_count[i] as i32) << 1;", False),
+    ("C17", "C17Gen", "src/enc/entropy_encode.rs", "    bl_count[0] = 0u16;\n    next_code[0] = 0u16;", "    next_code[0] = 0u16;", False),
+    ("C17", "C17Gen", "src/enc/entropy_encode.rs", "        code = (code + bl_count[i - 1] as i32) << 1;\n        next_code[i] = code as u16;", "        let prev = bl_count[i - 1] as i32;\n        code = (code + prev) << 1;\n        next_code[i] = code as u16;", True),
     # C20Gen
     ("C20", "C20Gen", "src/enc/encode.rs", "            if value != 0 && value != 1 {\n                return false;\n            }", "            if value != 0 && value != 1 && value != 2 {\n                return false;\n            }", False),
     ("C20", "C20Gen", "src/enc/encode.rs", "            params.use_dictionary = (value == 0);", "            params.use_dictionary = (value != 0);", False),
